@@ -1771,6 +1771,12 @@ class Irc(IrcCommandDispatcher, log.Firewalled):
             self.sasl_scram_state['step'] = 'authenticated'
 
     def do903(self, msg):
+        # Only meaningful as the end of a SASL exchange; in particular an
+        # unsolicited 903 must not make us believe we are authenticated.
+        self.state.fsm.expect_state([
+            IrcStateFsm.States.INIT_SASL,
+            IrcStateFsm.States.CONNECTED_SASL,
+        ])
         log.info('%s: SASL authentication successful', self.network)
         self.sasl_authenticated = True
         self.state.fsm.on_sasl_auth_finished(self, msg)
